@@ -66,7 +66,7 @@ class FitWorld:
         with warnings.catch_warnings(), contextlib.redirect_stdout(io.StringIO()):
             warnings.simplefilter("ignore")
             df = workload.make_cohort(st, kind=cfg["kind"], n=cfg["n"], n_features=cfg["nf"], max_visits=cfg["max_visits"],
-                                      missing_rate=cfg["missing"], whole_feature_missing=cfg.get("whole_ft", False))
+                                      missing_rate=cfg["missing"], whole_feature_missing=cfg.get("whole_ft", False), baseline_axis=bool(cfg.get("baseline_axis")))
             self.df = df
             self.data = workload.to_data(df, cfg["kind"])
             self.dataset = Dataset(self.data)
